@@ -410,6 +410,23 @@ def rule_relax_agree(crate, prop, tier):
         if not o.check(R == A, WHO, "R2-one-arc-list", "relaxations read arcs from different containers"):
             continue
         visit_sites.append((b, I))
+    # the arc list the rounds run over is every arc of the digraph: collected from arcs_weighted() through adaptors that keep
+    # every item (map, copied, cloned, inspect, enumerate), never through a restricting one
+    IT_ = "core::iter::traits::iterator::Iterator::"
+    KEEP = {IT_ + k for k in ("map", "copied", "cloned", "inspect", "enumerate", "by_ref", "peekable", "fuse")}
+    for ev_c in an.events:
+        if ev_c["k"] != "call" or ev_c["key"] != IT_ + "collect" or not ev_c["args"]:
+            continue
+        src = ev_c["args"][0]
+        chain = []
+        t_ = src
+        while t_[0] == "call" and t_[1].startswith(IT_) and t_[3]:
+            chain.append(t_[1])
+            t_ = t_[3][0]
+        if t_[0] == "call" and t_[1].endswith("ArcsWeighted::arcs_weighted"):
+            bad = [k for k in chain if k not in KEEP]
+            o.check(not bad, WHO, "R2-all-arcs-collected", "the arc list is collected from arcs_weighted() through %s: arcs are dropped "
+                    "before the relaxation rounds and the detection pass ever see them" % ", ".join(k.split("::")[-1] for k in bad), ev_c["span"])
     # reads of arcs[I] anywhere in the body are visits too (the inline form reads before the data-dependent tests)
     if A is not None:
         def scan(t, b):
